@@ -161,5 +161,33 @@ CLAIMS = {
        "are not driven); tampering with uncompressed cache files at rest is out of scope (hits are unverified by design); concurrent Mounts racing on one layer object not modelled; "
        "'valid different payload' substitution only for stored gzip; a wrong-digest-field mutant fails closed and shows as exit 2. Trusted: TLC, the concretiser and projection in harness/fs/reader.",
   technique="TLA+ spec + TLC exhaustive check with negative controls; gated edge-cover replay of the TLC state graphs into Go over really altered blobs; TLC trace validation + property monitor; monitor-only free run and alteration sweep"),
+ "C02": dict(
+  text="ReadPath.tla transcribes the lazy read path (file.ReadAt with the lower/upperDiscard arithmetic and expectedSize, ChunkEntryForOffset, fileReader.ReadAt with the pre-reader "
+       "caching sibling chunks of a shared compression stream, VerifiableReader.Cache as prefetch/background fetch, evictions) over layouts taken from the real TOC of really built blobs; "
+       "TarMeta.tla states what a tar describes (last duplicate wins, implicit parents 0755, hard links share an inode and count in nlink, symlink size, rdev) and transcribes "
+       "initFields/entryToAttr/fileModeToSystemMode/node.Lookup with the memoised listing. TLC checks ReadEqualsSource, CacheHoldsOnlySourceBytes, MetaEqualsTar exhaustively with 9 "
+       "negative controls. Binding: every edge of the generation graphs is replayed on layers built by estargz.Build (gzip, zstd:chunked, min-chunk-size shared streams, prioritized files) "
+       "and served through BOTH metadata stores (memory; bolt db via the cmd module), reader.Reader and the node layer, with memory / tiny-LRU directory caches behind a drop wrapper; TLC "
+       "validates the recorded events and evaluates the formulas on the recorded results; concurrent readers with evictions and fills run under -race, judged by the monitor. Found and "
+       "fixed: db store listed a file's chunks of a shared stream several times (b6c08c8).",
+  design_ref="DESIGN.md 3 (C02), 2.4, 2.5",
+  note="Bounded: <=3 files of <=9 bytes, chunk size 2-3, 3-6 option sets, 2-3 tar shapes of <=9 entries. Not covered here: remote blob / fetch failures (C06), chunk verification (C01), "
+       "real FUSE mount and passthrough, external-TOC compression, worker counts >1, directory link counts, './' root entries (C05/C15), whiteouts (C07). Concurrent runs monitor-only. "
+       "Trusted: TLC, the projection in harness/fs/layer/verif_readpath.go.",
+  technique="TLA+ transcriptions + TLC exhaustive check with negative controls; edge-cover replay into Go on both metadata stores; TLC trace validation + property monitor (also on free-running -race executions)"),
+ "C07": dict(
+  text="Node.tla models one served directory of fs/layer/node.go with one action per call (readdir memoisation, the order of Lookup's tests, in-memory go-fuse children, Forget, opaque "
+       "xattrs per mode, the state directory and stat file); TLC checks ListingIsTranslation, ListedIffLookup, InodesUniqueStable, OpaqueXattr, StateFileJSON, StateDirHidden exhaustively "
+       "(as invariants and action properties) for every directory content of <=3-4 names out of 7-8 (whiteouts, opaque marker, landmarks, TOC entry, names beginning with .wh.), root and "
+       "sub-directory, the 3 opaque modes and every call order, with 9 negative controls. Overlay.tla defines Translate, ApplyOCI, OverlayMerge; TLC checks OverlayMerge(Served(stack)) = "
+       "ApplyOCI(stack) for all stacks of <=3 small layers. Binding: every edge of the Node graph (+ random walks, every sequence of <=4 state-file calls, every sequence of <=3 "
+       "Readdir/Lookup/Forget calls) is replayed on real nodes of real eStargz layers over the memory and bolt-db stores; recorded results are validated by TLC and the formulas evaluated "
+       "by the monitor; the trees served for 96-480 model layers in all 3 modes on both stores are recorded and TLC merges stacks of them with OverlayMerge and compares with ApplyOCI. "
+       "Found and fixed: three defects (e394a06, 7be4fbc, eeb783d).",
+  design_ref="DESIGN.md 3 (C07), 2.4, 2.5, 7 item 4",
+  note="Bounded universes (7-8 names, reg/dir kinds, depth two, <=3 layers; sampled pairs/triples in the monitor). No kernel: overlayfs is the operator OverlayMerge and the go-fuse bridge "
+       "bookkeeping is emulated. Layers with the opaque marker on the layer root are outside the stack comparison. Not modelled: hard links, a real entry named .stargz-snapshotter, "
+       "concurrent Readdir/Lookup, the choice of opaque mode in service.go. Trusted: TLC, the projection in harness/fs/layer/verif_node.go.",
+  technique="TLA+ specs + TLC exhaustive check with negative controls; edge-cover and exhaustive short-sequence replay into Go on both metadata stores; TLC trace validation + property monitor; TLC evaluation of OverlayMerge on recorded served trees"),
 }
 NOT_APPLICABLE = {}
